@@ -364,7 +364,11 @@ pub fn run(cfg: &Cfg) -> i32 {
     for b in [vec![": q 5 ;", "u"], vec![": q 5 ;", "u", "u"], vec!["1", ": q 5 ;", "u", "+"]] {
         all_bodies.push(b);
     }
-    const OUTER: &str = "33 var g late q : u q ;";
+    // the surrounding program: a late-bound word `q` with a caller `u`; `q` not defined yet, or defined before the block
+    const OUTERS: [&str; 2] = ["33 var g late q : u q ;", "33 var g late q : u q ; : q 4 ;"];
+    for b in [vec!["u"], vec!["u", "u", "+"]] {
+        all_bodies.push(b);
+    }
     let n_seal = AtomicU64::new(0);
     let seal_classes = Counters::new();
     par_run(cfg.threads, all_bodies.len(), 16, |_t, pull| {
@@ -377,10 +381,14 @@ pub fn run(cfg: &Cfg) -> i32 {
         while let Some(r) = pull() {
             for bi in r {
                 let body = all_bodies[bi].join(" ");
+                for outer in OUTERS {
+                if outer == OUTERS[1] && !body.split(' ').any(|w| w == "u") {
+                    continue; // the second surrounding program only matters to bodies that call the late-bound word
+                }
                 // the model: the body runs on an empty stack and may not touch variables
                 let standalone = {
                     let mut xs = base0.clone();
-                    let _ = xs.eval(OUTER);
+                    let _ = xs.eval(outer);
                     watch::note(AsRef::<str>::as_ref(&body));
                     let r = guarded(|| xs.eval(&body));
                     match r {
@@ -393,7 +401,7 @@ pub fn run(cfg: &Cfg) -> i32 {
                     n_seal.fetch_add(1, Ordering::Relaxed);
                     let sentinels: Vec<String> = (0..depth).map(|i| format!("{}", 100 + i)).collect();
                     let mut xs = base0.clone();
-                    xs.eval(OUTER).unwrap();
+                    xs.eval(outer).unwrap();
                     if depth > 0 {
                         xs.eval(&sentinels.join(" ")).unwrap();
                     }
@@ -448,8 +456,9 @@ pub fn run(cfg: &Cfg) -> i32 {
                         }
                     }
                     if let Some((k, d)) = bad {
-                        rep.report_w(&k, (src.len() + depth) as u64, || jo(vec![("kind", js("sealing")), ("outer_stack", js(format!("{:?}", sentinels))), ("source", js(src.clone())), ("problem", js(d.clone()))]));
+                        rep.report_w(&k, (src.len() + depth) as u64, || jo(vec![("kind", js("sealing")), ("evaluated_before", js(outer)), ("outer_stack", js(format!("{:?}", sentinels))), ("source", js(src.clone())), ("problem", js(d.clone()))]));
                     }
+                }
                 }
             }
         }
